@@ -83,8 +83,11 @@ def check_skeletons(ctx):
         bad = [o for o in ctx.obs if o.rule == 'R2-skeleton' and o.verdict != 'HOLDS' and (o.statement.startswith(g.label) or o.statement.startswith(t.label))]
         if not bad:
             ctx.holds('R2-sibling-handlers', t.where, '%s drivers: generic and generated' % kind, 'both add (cursor, field, class) to a passing PacketError and convert any other failure to PacketError(%s, field, class, cursor, message)' % (kind == 'unpack'), t.node.lineno, clause='a')
+        elif all(o.verdict == 'UNDECIDED' for o in bad):
+            ctx.undecided('R2-sibling-handlers', t.where, '%s drivers: %s' % (kind, bad[0].statement[:200]), 'one of the two drivers could not be decided (%s)' % bad[0].reason[:160], t.node.lineno, clause='a')
         else:
-            ctx.violation('R2-sibling-handlers', t.where, '%s drivers: %s' % (kind, bad[0].statement[:200]), 'the generated driver and the generic driver do not handle failures the same way (%s)' % bad[0].reason[:160], t.node.lineno, clause='a')
+            wrong = [o for o in bad if o.verdict == 'VIOLATION'][0]
+            ctx.violation('R2-sibling-handlers', t.where, '%s drivers: %s' % (kind, wrong.statement[:200]), 'the generated driver and the generic driver do not handle failures the same way (%s)' % wrong.reason[:160], t.node.lineno, clause='a', witness=True)
         # (b) per-field call
         gs = D.generic_loop_shape(ctx, 'R2-field-call', g)
         ts = D.template_loop_shape(ctx, 'R2-field-call', ctx.repo, kind)
@@ -563,11 +566,21 @@ def check_options(ctx):
     # CodeGenerator.__init__ stores them unchanged
     for opt in ('generate_for_pack', 'generate_for_unpack', 'vectorize', 'fields', 'pkt_class'):
         ok = False
+        other = derived = None
         for n in ast.walk(ginit.node):
-            if isinstance(n, ast.Assign) and isinstance(n.targets[0], ast.Attribute) and n.targets[0].attr == opt and isinstance(n.value, ast.Name) and n.value.id == opt:
-                ok = True
-        if ok:
+            if isinstance(n, ast.Assign) and isinstance(n.targets[0], ast.Attribute) and n.targets[0].attr == opt and canon(n.targets[0].value) == 'self':
+                if isinstance(n.value, ast.Name) and n.value.id == opt:
+                    ok = True
+                elif any(isinstance(x, ast.Name) and x.id == opt for x in ast.walk(n.value)):
+                    derived = n
+                else:
+                    other = n
+        if other is not None:
+            ctx.violation(rule, ginit, stmt_text(other), 'CodeGenerator does not store the %s option unchanged' % opt, other.lineno, clause='e', witness=True)
+        elif ok and derived is None:
             ctx.holds(rule, ginit, 'self.%s = %s' % (opt, opt), 'stored unchanged', ginit.node.lineno, clause='e')
+        elif derived is not None:
+            ctx.undecided(rule, ginit, stmt_text(derived), 'the %s option is stored in another form: cannot see that nothing is lost' % opt, derived.lineno, clause='e')
         else:
             ctx.violation(rule, ginit, 'self.%s' % opt, 'CodeGenerator does not store the %s option unchanged' % opt, ginit.node.lineno, clause='e')
     # annotate: the source map is kept only when annotate is on, otherwise {}
